@@ -433,6 +433,7 @@ class HealCtx(FsmCtx):
         self.settled = False
         self.H = min(cfg["hold_time"], cfg["peer_hold"])
         self.kinds_seen = set()
+        self.silent = False
 
     # ---- generation
     def choose(self, rng):
@@ -462,9 +463,11 @@ class HealCtx(FsmCtx):
         self.coop_ops += 1
         live = w.live_conns()
         now = w.now()
-        # 1. connections from the adversarial phase are reset
+        # 1. connections from the adversarial phase are reset -- or (variant) the one the agent waits on
+        # in OpenSent is dead: the peer's end is gone without a FIN/RST having reached the agent, nothing
+        # will ever arrive on it, and only the agent's own hold timer can end the wait
         for k, c in enumerate(live):
-            if c.cid < self.first_coop_cid and c.state == "connected":
+            if c.cid < self.first_coop_cid and c.state == "connected" and not (self.silent and c.readable()):
                 return ["pclose", k, False]
         # 2. closes complete at once
         for k, c in enumerate(live):
@@ -482,7 +485,7 @@ class HealCtx(FsmCtx):
                 return ["advance", dl - now]
         # 4. session on the newest connection
         for k, c in enumerate(live):
-            if c.readable():
+            if c.readable() and not (self.silent and c.cid < self.first_coop_cid):
                 frames = rp.deframe(c.written)[0]
                 types = [f.type for f in frames]
                 if rp.OPEN in types and c.cid not in self.sent_open:
@@ -540,7 +543,8 @@ class HealCtx(FsmCtx):
 
     def liveness_deadline(self):
         c = self.cfg
-        return self.t_switch + max(c["idle_hold_time"], self.boot_left) + c["connect_latency"] + 1.0
+        # (dead-connection variant: plus the OpenSent hold timer, RFC 4271 'large value', 240 s in yabgp)
+        return self.t_switch + (240.0 if self.silent else 0.0) + max(c["idle_hold_time"], self.boot_left) + c["connect_latency"] + 1.0
 
     # ---- oracle
     def step(self, op):
@@ -559,6 +563,11 @@ class HealCtx(FsmCtx):
             if not any(e[2] == "connect" for e in w.log):
                 self.boot_left = max(0.0, self.cfg["call_later"] - w.now())
             self.state_at_switch = w.state()
+            self.silent = bool(self.cfg.get("dead_old_connection")) and w.state() == "OPENSENT" and \
+                any(c.readable() and c.cid < self.first_coop_cid for c in w.live_conns())
+            if self.silent:
+                self.stats["switch_with_dead_connection_in_OpenSent"] += 1
+                self.state_at_switch = "OPENSENT(dead-connection)"
             self.cells.add("switch/%s" % self.model.phase)
             self.trace.append("switch/%s" % self.model.phase)
             self.stats["switch_in_" + w.state()] += 1
@@ -647,10 +656,10 @@ class HealProfile(FsmProfile):
     runs = {"quick": 30000, "thorough": 1000000}
     ctx_class = HealCtx
     rule = ("one run = adversarial prefix of 0-60 ops over the C01 alphabet (operator never leaves the peer stopped), then the "
-            "peer turns cooperative: resets old connections, accepts connects within <=1 s, validates the agent's OPEN like a "
+            "peer turns cooperative: resets old connections (30 % of runs: a connection the agent waits on in OpenSent is instead dead -- nothing ever arrives on it -- and the bound grows by the 240 s OpenSent hold timer), accepts connects within <=1 s, validates the agent's OPEN like a "
             "real router, answers with a valid OPEN and KEEPALIVEs every H/3 for 3 hold times; non-trivial = healed to "
             "Established; distinct = distinct prefix cell sequence + switch state")
-    probes = ["gen:default_handler_runs", "healed", "stayed_up_3H", "switch_in_IDLE", "switch_in_CONNECT", "switch_in_OPENSENT", "switch_in_OPENCONFIRM",
+    probes = ["switch_with_dead_connection_in_OpenSent", "gen:default_handler_runs", "healed", "stayed_up_3H", "switch_in_IDLE", "switch_in_CONNECT", "switch_in_OPENSENT", "switch_in_OPENCONFIRM",
               "switch_in_ESTABLISHED", "switch_during_close_completion", "ev:open_err6", "ev:open_hold0"]
 
     def gen_config(self, rng, idx, tier):
@@ -659,6 +668,7 @@ class HealProfile(FsmProfile):
         cfg["max_ops"] = 10 ** 6
         cfg["peer_hold"] = rng.pick([0, 3, 9, 30, 90, 180, 65535])
         cfg["connect_latency"] = rng.pick([0.0, 0.1, 1.0])
+        cfg["dead_old_connection"] = rng.chance(0.3)
         # bias: unacceptable / unusual OPENs in the prefix (the "poisoned value" class)
         cfg["peer_open"] = base.gen_open(rng, cfg, "valid", hold=cfg["peer_hold"]).hex()
         if rng.chance(0.1):
